@@ -213,6 +213,41 @@ func (e *Engine) resolveContract(c *Contract) (string, bool, error) {
 		}
 		return "ifacedefault:" + c.PkgPath + "." + c.Name, true, nil
 	}
+	if c.Flags["funcparam"] != "" {
+		// Name = "[(*T).]F.p"
+		i := strings.LastIndex(c.Name, ".")
+		if i < 0 {
+			return "", false, fmt.Errorf("funcparam wants F.p")
+		}
+		fname, pname := c.Name[:i], c.Name[i+1:]
+		m := reFunc.FindStringSubmatch("func " + fname)
+		if m == nil {
+			return "", false, fmt.Errorf("funcparam: bad function name %q", fname)
+		}
+		parent := &Contract{PkgPath: c.PkgPath, Recv: strings.TrimSpace(m[1]), Name: m[2], Flags: map[string]string{}}
+		pk, _, err := e.resolveContract(parent)
+		if err != nil {
+			return "", false, err
+		}
+		sig := parent.Obj.Type().(*types.Signature)
+		found := false
+		for j := 0; j < sig.Params().Len(); j++ {
+			if sig.Params().At(j).Name() == pname {
+				if _, ok := sig.Params().At(j).Type().Underlying().(*types.Signature); ok {
+					found = true
+					c.FuncT = sig.Params().At(j).Type()
+				}
+			}
+		}
+		if !found {
+			return "", false, fmt.Errorf("function %s has no function-typed parameter %s", fname, pname)
+		}
+		c.Trusted = true
+		if c.TrustedWhy == "" {
+			c.TrustedWhy = "contract on a caller-supplied function parameter"
+		}
+		return "funcparam:" + pk + "." + pname, false, nil
+	}
 	if c.Flags["funcfield"] != "" {
 		parts := strings.Split(c.Name, ".")
 		if len(parts) != 2 {
